@@ -519,9 +519,10 @@ func extraOrcas(repo, work string, replace map[string]string) {
 
 import "sync/atomic"
 
-// VerifResetLockSets makes the next lock set the first one again (sets handed out earlier stay
-// with the orchestrators that hold them).
-func VerifResetLockSets() { atomic.StoreUint32(&curslot, 0) }
+// VerifSwapLockCursor sets the number of the lock set handed out last and returns the previous
+// value: a deployment built by the real main program is given a slot of its own (and the cursor
+// is put back afterwards), so that it never shares a table with lock sets the harness created.
+func VerifSwapLockCursor(v uint32) uint32 { return atomic.SwapUint32(&curslot, v) }
 `
 	dst := filepath.Join(work, "orcas__verif_reset.go")
 	if err := os.WriteFile(dst, []byte(exp), 0o644); err != nil {
